@@ -68,8 +68,6 @@ static void pic_check(struct c2_ctx *c, int hi, const char *after)
     }
 }
 
-static void pic_free_hook(struct c2_ctx *c, int hi) { (void)c; (void)hi; }
-
 /* write mapping of a window of one plane; window given in pixels / lines, already in the documented domain */
 static bool pic_write(struct c2_ctx *c, int hi, int pl, int ho, int vo, int hsz, int vsz, const char *what, bool count)
 {
@@ -250,7 +248,7 @@ static int run(const uint8_t *tp_, size_t len, struct vp_report *rep, unsigned f
     tp_init(&c->t, tp_, len);
     c->rep = rep; c->render = flags & VP_RENDER; c->flags = flags; c->pat = 2463534242u; c->hash = VP_HASH_INIT;
     c->max_alloc = 64;
-    c->planar_check = pic_check; c->planar_free = pic_free_hook;
+    c->planar_check = pic_check;
     int maxops = (flags & VP_THOROUGH) ? MAXOPS_THOROUGH : MAXOPS;
 
     static const int depths[] = { 0, 1, 4 }, marg[] = { 0, 4, 8 }, vmarg[] = { 0, 2, 4 }, aligns[] = { 0, 16, 64 }, hmoffs[] = { 0, 2, -2 };
